@@ -173,6 +173,22 @@ def blockfail_script(rng):
     return out
 
 
+def slow_script(rng):
+    """A ping whose send takes longer than its timeout and whose reply is parsed before the send returns, followed by
+    answered pings; one scheduler thread, so that whatever per-P cache the implementation uses is shared by all of them."""
+    fam = [rng.choice(["v4", "v6"]) for _ in range(4)]
+    out = [{"a": "procs", "v": 1},
+           {"a": "start", "p": "p1", "fam": fam[0], "fail": "", "burst": 0, "inline": own_kind(fam[0]), "slow": 1},
+           {"a": "ret", "p": "p1"}]
+    for i in (1, 2, 3):
+        p = "p%d" % (i + 1)
+        out.append({"a": "start", "p": p, "fam": fam[i], "fail": "", "burst": 0, "inline": own_kind(fam[i]) if rng.random() < 0.3 else ""})
+        if not out[-1]["inline"]:
+            out.append({"a": "reply", "tgt": p, "off": 0, "kind": own_kind(fam[i])})
+        out.append({"a": "ret", "p": p})
+    return out
+
+
 def wrap_script(rng, first):
     """Four pings whose identifiers straddle the uint16 wrap-around (65534, 65535, 0, 1), each answered or not."""
     out = [{"a": "next", "v": first}]
@@ -285,9 +301,13 @@ def drive_parallel(ctx, binary, scripts, nworkers, label, slot=120, nexts=None):
         with open(sp, "w") as f:
             for j, (i, sc) in enumerate(ch):
                 rec = {"a": "reset", "bid": i}
-                if sc and sc[0].get("a") == "next":
-                    rec["next"] = sc[0]["v"]
+                had_next = False
+                while sc and sc[0].get("a") in ("next", "procs"):      # leading pseudo events: counter position, GOMAXPROCS
+                    rec[sc[0]["a"]] = sc[0]["v"]
+                    had_next = had_next or sc[0]["a"] == "next"
                     sc = sc[1:]
+                if had_next:
+                    pass
                 elif nexts is not None:
                     if i in nexts:
                         rec["next"] = nexts[i]
@@ -435,6 +455,7 @@ def run(ctx):
     scripts += [random_script(rng) for _ in range(nB)]
     scripts += [blockfail_script(rng) for _ in range(12 if ctx.quick else 120)]
     scripts += [wrap_script(rng, 65534 - rng.randint(0, 2)) for _ in range(6 if ctx.quick else 40)]
+    scripts += [slow_script(rng) for _ in range(8 if ctx.quick else 40)]
     scripts = [s for s in scripts if s]
     tp, st = drive_parallel(ctx, binary, scripts, 8 if ctx.quick else 12, "ping")
     lines = vlib.read_ndjson(tp)
